@@ -381,6 +381,10 @@ class Verdict:
     def finish(self, l0=None, extra_no_input=None):
         """Print verdict lines; return exit code."""
         rc = 0
+        if extra_no_input is not None and self.failure(extra_no_input) == 'known':
+            extra_no_input = None      # a model/implementation disagreement inside the scope of a recorded finding
+        elif extra_no_input is not None:
+            self.fail.remove(extra_no_input)
         for f in self.findings:
             if f['id'] in self.known:
                 print('KNOWN-FINDING: property=%s %s (%d cases this run; id=%s)'
